@@ -11,6 +11,12 @@ callbacks / invoke results, every execution of a bounded, replay-stable workflow
 outcome after finitely many invocations (part B, `C07_terminates`).  *Total*: one invocation is a
 total function (`C07_invocation_total`; by construction of the model).
 
+Since the SDK abandons the asynchronous updates still queued when an invocation ends — whatever
+the ending (`Engine.finalTbl`) —, every statement about "the table the backend holds afterwards" is
+for **every** number `keep` of asynchronous updates that still got through, and the liveness
+theorem is for every *keep plan* `keep : Nat → Nat` (round `i` keeps `keep i` of them): all that the
+progress argument needs is written synchronously; a lost asynchronous START is sent again.
+
 The liveness statement with `EngineCompat.Scoped` (replay-stability up to `Sim`) instead of
 `EngineLive.LScoped` (replay-stability up to equality) is **false**: `C07_terminates_full_false`
 exhibits a `Scoped`, `Bounded` workflow that is suspended forever (a consequence of finding F2).
@@ -28,7 +34,8 @@ all of whose `wait` / `invoke` / `Callback.result()` calls are well-placed (`Eng
 in `C03.C03_pending_after_park_partial`), ends `suspended`, then there is a position `q` with a
 parking record that
 * is in the synchronously acknowledged table,
-* is still in the table the backend holds afterwards, and
+* is in the table the backend holds afterwards, **however many** (`keep`) of the asynchronous
+  updates still in flight got through (it was written synchronously), and
 * can be woken there: the event `wakeEvent q r o` (retry timer / wait timer / completion of the
   callback or chained invoke with any real outcome `o`) is enabled. -/
 theorem C07_suspended_is_parked (p : Prog) (t : Tbl) (budget : Nat) (failAt : Option Nat)
@@ -36,18 +43,18 @@ theorem C07_suspended_is_parked (p : Prog) (t : Tbl) (budget : Nat) (failAt : Op
     (hk : Respects p [] 0 (initSt t budget failAt imm) = true) (hpk : PendKinded t)
     (he : (invoke p t budget failAt imm).1 = .suspended d) :
     ∃ q r, lookup (invoke p t budget failAt imm).2.syncTbl q = some r ∧ Parked r = true ∧
-      lookup (finalTbl (invoke p t budget failAt imm).1 (invoke p t budget failAt imm).2 0) q = some r ∧
-      ∀ o, o ≠ Backend.Immediate.none → ∃ t',
-        Backend.fire (finalTbl (invoke p t budget failAt imm).1 (invoke p t budget failAt imm).2 0)
-          (wakeEvent q r o) = some t' := by
+      ∀ keep,
+        lookup (finalTbl (invoke p t budget failAt imm).1 (invoke p t budget failAt imm).2 keep) q = some r ∧
+        ∀ o, o ≠ Backend.Immediate.none → ∃ t',
+          Backend.fire (finalTbl (invoke p t budget failAt imm).1 (invoke p t budget failAt imm).2 keep)
+            (wakeEvent q r o) = some t' := by
   obtain ⟨q, r, hl, hp⟩ := C03.C03_pending_after_park_partial p t budget failAt imm d hk he
-  have hcur : lookup (invoke p t budget failAt imm).2.tbl q = some r :=
-    pb_run p [] 0 _ (pb_init t budget failAt imm) q r hl hp
-  have hfin : finalTbl (invoke p t budget failAt imm).1 (invoke p t budget failAt imm).2 0 =
-      (invoke p t budget failAt imm).2.tbl := by rw [he]; rfl
-  have hkd := EngineExec.invoke_stable stableA_pendKinded p t budget failAt imm 0 hpk
-  refine ⟨q, r, hl, hp, by rw [hfin]; exact hcur, fun o ho => ?_⟩
-  exact wake_enabled (by rw [hfin]; exact hcur) hp (hkd q r (by rw [hfin]; exact hcur)) o ho
+  have hw : WAL (invoke p t budget failAt imm).2 := wal_run p [] 0 _ (wal_init t budget failAt imm)
+  refine ⟨q, r, hl, hp, fun keep => ?_⟩
+  have hcur : lookup (finalTbl (invoke p t budget failAt imm).1 (invoke p t budget failAt imm).2 keep) q =
+      some r := parked_kept hw hl hp keep
+  have hkd := EngineExec.invoke_stable stableA_pendKinded p t budget failAt imm keep hpk
+  exact ⟨hcur, fun o ho => wake_enabled hcur hp (hkd q r hcur) o ho⟩
 
 /-- The side condition of A1 holds for every table of every execution that starts from the empty
 table: it is preserved by invocations (any ending, any crash prefix), by backend events and by B6. -/
@@ -218,9 +225,11 @@ theorem C07_invocation_total (p : Prog) (ctx : Pos) (n : Nat) (s : St) :
 
 The good environment is `EngineLive.fireAll` (every PENDING step / wait-for-condition becomes READY,
 every STARTED wait SUCCEEDED, every STARTED callback / chained invoke is completed with `outc q`);
-`EngineLive.goodRound` is one invocation (no injected fault, nothing completed at START) followed by
-`fireAll`; `goodTbl` / `goodEnd` iterate it from the empty table with crash budget `budget i` in
-round `i`. -/
+`EngineLive.goodRound` is one invocation (no injected fault, nothing completed at START), after which
+the backend holds `finalTbl … k` (the acknowledged table plus the first `k` asynchronous updates
+still in flight — the SDK abandons the rest, whatever the ending), followed by `fireAll`;
+`goodTbl` / `goodEnd` iterate it from the empty table with crash budget `budget i` and `keep i` kept
+asynchronous updates in round `i`. -/
 
 /-- Each cell `fireAll` changes is changed by a legal backend event (B3). -/
 theorem C07_fireAll_legal (outc : Pos → Backend.Immediate) (t : Tbl) (q : Pos) (r : OpRec)
@@ -245,6 +254,8 @@ theorem C07_fireAll_lookup (outc : Pos → Backend.Immediate) (t : Tbl) (q : Pos
   original-vs-`CallableRuntimeError` form of an invocation error), or
 * crashes, or
 * suspends leaving the record PENDING with `a + 1` attempts — only if the strategy granted the retry;
+  the RETRY was synchronous: nothing is in flight (`Synced`), so the backend holds exactly this table
+  whatever it keeps (`kept_synced`);
 `fireAll` makes a PENDING step READY (same attempt count); and once `M ≤ a + 1` for a bound `M` of
 the strategy, the third case is impossible. -/
 theorem C07_step_progress {s : St} {q : Pos} (sp : StepSpec) (a : Nat)
@@ -265,7 +276,7 @@ theorem C07_step_progress {s : St} {q : Pos} (sp : StepSpec) (a : Nat)
     rw [fireRec_pending (Or.inl hk) hs]
   · intro M hM hle d s' h
     rw [h] at hv
-    rcases hv with hv | ⟨_, _, ex, _, _, _, _, _, hstr⟩
+    rcases hv with hv | ⟨_, _, ex, _, _, _, _, _, hstr, _⟩
     · cases hv
     · rw [hM ex (a + 1) hle] at hstr; cases hstr
 
@@ -289,7 +300,7 @@ theorem C07_wfc_progress {s : St} {q : Pos} (w : WfcSpec) (a : Nat)
     rw [fireRec_pending (Or.inr hk) hs]
   · intro M hM hle d s' h
     rw [h] at hv
-    rcases hv with hv | ⟨_, _, v, _, _, _, _, _, hstr⟩
+    rcases hv with hv | ⟨_, _, v, _, _, _, _, _, hstr, _⟩
     · cases hv
     · rw [hM v (a + 1) hle] at hstr; cases hstr
 
@@ -299,7 +310,7 @@ theorem C07_wait_progress (q : Pos) (secs : Nat) :
     (∀ s : St, StOk s → Backend.parentOk s.tbl q = true → lookup s.tbl q = none →
       (∃ s', handleWait s q secs = .stop .crashed s') ∨
       (∃ s', handleWait s q secs = .stop (.suspended (some secs)) s' ∧
-        lookup s'.tbl q = some { kind := .wait, status := .started })) ∧
+        lookup s'.tbl q = some { kind := .wait, status := .started } ∧ Synced s')) ∧
     (∀ (outc : Pos → Backend.Immediate) (t : Tbl), lookup t q = some { kind := .wait, status := .started } →
       lookup (fireAll outc t) q = some { kind := .wait, status := .succeeded }) ∧
     (∀ (s : St) (r : OpRec), lookup s.tbl q = some r → r.status = .succeeded →
@@ -315,7 +326,7 @@ theorem C07_invoke_progress (q : Pos) (pl : Val) :
     (∀ s : St, StOk s → Backend.parentOk s.tbl q = true → lookup s.tbl q = none →
       (∃ s', handleInvoke s q pl = .stop .crashed s') ∨
       (∃ s', handleInvoke s q pl = .stop (.suspended (some 0)) s' ∧
-        lookup s'.tbl q = some { kind := .invoke, status := .started })) ∧
+        lookup s'.tbl q = some { kind := .invoke, status := .started } ∧ Synced s')) ∧
     (∀ (outc : Pos → Backend.Immediate) (t : Tbl), outc q ≠ .none →
       lookup t q = some { kind := .invoke, status := .started } →
       ∃ r o, lookup (fireAll outc t) q = some r ∧ invOut r = some o) ∧
@@ -336,7 +347,8 @@ theorem C07_invoke_progress (q : Pos) (pl : Val) :
 theorem C07_callback_progress (q : Pos) :
     (∀ s : St, StOk s → Backend.parentOk s.tbl q = true → lookup s.tbl q = none →
       (∃ s', handleCbNew s q = .error (.crashed, s')) ∨
-      (∃ s', handleCbNew s q = .ok s' ∧ lookup s'.tbl q = some { kind := .callback, status := .started })) ∧
+      (∃ s', handleCbNew s q = .ok s' ∧ lookup s'.tbl q = some { kind := .callback, status := .started } ∧
+        Synced s')) ∧
     (∀ s : St, lookup s.tbl q = some { kind := .callback, status := .started } →
       handleCbRes s q = .stop (.suspended none) s) ∧
     (∀ (outc : Pos → Backend.Immediate) (t : Tbl), outc q ≠ .none →
@@ -358,16 +370,18 @@ theorem C07_callback_progress (q : Pos) :
 /-! ### A step is done within `M + 1` rounds -/
 
 /-- The table before round `i` of the one-operation driver: visit the step at `q` (crash budget
-`budget i`), then let the environment fire. -/
-def stepTbl (outc : Pos → Backend.Immediate) (sp : StepSpec) (q : Pos) (budget : Nat → Nat) (t0 : Tbl) : Nat → Tbl
+`budget i`), let the backend keep `keep i` of the asynchronous updates in flight, then let the
+environment fire. -/
+def stepTbl (outc : Pos → Backend.Immediate) (sp : StepSpec) (q : Pos) (budget keep : Nat → Nat) (t0 : Tbl) :
+    Nat → Tbl
   | 0 => t0
-  | i + 1 => fireAll outc
-      (handleStep (initSt (stepTbl outc sp q budget t0 i) (budget i) none (fun _ => .none)) q sp).st.tbl
+  | i + 1 => fireAll outc (kept
+      (handleStep (initSt (stepTbl outc sp q budget keep t0 i) (budget i) none (fun _ => .none)) q sp).st (keep i))
 
 /-- The visit of round `i`. -/
-def stepVisit (outc : Pos → Backend.Immediate) (sp : StepSpec) (q : Pos) (budget : Nat → Nat) (t0 : Tbl)
+def stepVisit (outc : Pos → Backend.Immediate) (sp : StepSpec) (q : Pos) (budget keep : Nat → Nat) (t0 : Tbl)
     (i : Nat) : HRes :=
-  handleStep (initSt (stepTbl outc sp q budget t0 i) (budget i) none (fun _ => .none)) q sp
+  handleStep (initSt (stepTbl outc sp q budget keep t0 i) (budget i) none (fun _ => .none)) q sp
 
 theorem parentOk_congr {t t' : Tbl} {q : Pos} (h : lookup t' q.dropLast = lookup t q.dropLast) :
     Backend.parentOk t' q = Backend.parentOk t q := by
@@ -400,18 +414,19 @@ theorem parentOk_fireAll (outc : Pos → Backend.Immediate) {t : Tbl} {q : Pos}
       rw [fireRec_kind]; exact h
 
 /-- **A bounded step is done within `M + 1` rounds**: from a fresh position, after at most `M`
-suspended rounds the visit delivers (the record is then `Done`) — or the invocation crashes. -/
+suspended rounds the visit delivers (the record is then `Done`) — or the invocation crashes;
+whatever the backend keeps of the asynchronous updates (the RETRY is synchronous). -/
 theorem C07_step_done_within (outc : Pos → Backend.Immediate) (sp : StepSpec) (q : Pos) (hq : q ≠ [])
-    (budget : Nat → Nat) (t0 : Tbl) (M : Nat) (hM : ∀ e a, M ≤ a → sp.strategy e a = none)
+    (budget keep : Nat → Nat) (t0 : Tbl) (M : Nat) (hM : ∀ e a, M ≤ a → sp.strategy e a = none)
     (hp0 : Backend.parentOk t0 q = true) (hl0 : lookup t0 q = none) :
-    ∃ i, i ≤ M ∧ (∀ i', i' < i → ∃ d s', stepVisit outc sp q budget t0 i' = .stop (.suspended d) s') ∧
-      ((∃ o s' r', stepVisit outc sp q budget t0 i = .deliver o s' ∧ lookup s'.tbl q = some r' ∧
+    ∃ i, i ≤ M ∧ (∀ i', i' < i → ∃ d s', stepVisit outc sp q budget keep t0 i' = .stop (.suspended d) s') ∧
+      ((∃ o s' r', stepVisit outc sp q budget keep t0 i = .deliver o s' ∧ lookup s'.tbl q = some r' ∧
           Done r' = true) ∨
-       (∃ s', stepVisit outc sp q budget t0 i = .stop .crashed s')) := by
-  have hinv : ∀ i, (∀ i', i' < i → ∃ d s', stepVisit outc sp q budget t0 i' = .stop (.suspended d) s') →
-      Backend.parentOk (stepTbl outc sp q budget t0 i) q = true ∧
-      ((lookup (stepTbl outc sp q budget t0 i) q = none ∧ i = 0) ∨
-        ∃ rt, lookup (stepTbl outc sp q budget t0 i) q = some rt ∧ rt.kind = .step ∧
+       (∃ s', stepVisit outc sp q budget keep t0 i = .stop .crashed s')) := by
+  have hinv : ∀ i, (∀ i', i' < i → ∃ d s', stepVisit outc sp q budget keep t0 i' = .stop (.suspended d) s') →
+      Backend.parentOk (stepTbl outc sp q budget keep t0 i) q = true ∧
+      ((lookup (stepTbl outc sp q budget keep t0 i) q = none ∧ i = 0) ∨
+        ∃ rt, lookup (stepTbl outc sp q budget keep t0 i) q = some rt ∧ rt.kind = .step ∧
           (rt.status = .started ∨ rt.status = .ready) ∧ i = rt.attempt) := by
     intro i
     induction i with
@@ -420,18 +435,18 @@ theorem C07_step_done_within (outc : Pos → Backend.Immediate) (sp : StepSpec) 
       intro hs
       obtain ⟨hp, hrec⟩ := ih (fun i' hi' => hs i' (by omega))
       obtain ⟨d, s', hv⟩ := hs i (by omega)
-      have hvis := handleStep_visit (s := initSt (stepTbl outc sp q budget t0 i) (budget i) none (fun _ => .none))
+      have hvis := handleStep_visit (s := initSt (stepTbl outc sp q budget keep t0 i) (budget i) none (fun _ => .none))
         sp i (stOk_init _ _) hp hrec
-      have hst : (stepVisit outc sp q budget t0 i).st = s' := by rw [hv]; rfl
-      have hoa := onlyAt_handleStep (initSt (stepTbl outc sp q budget t0 i) (budget i) none (fun _ => .none)) q sp
+      have hst : (stepVisit outc sp q budget keep t0 i).st = s' := by rw [hv]; rfl
+      have hoa := onlyAt_handleStep (initSt (stepTbl outc sp q budget keep t0 i) (budget i) none (fun _ => .none)) q sp
       unfold stepVisit at hv hst
       rw [hv] at hvis
       rw [hst] at hoa
-      rcases hvis with hc | ⟨_, r', _, _, hl', hk', hs', hat', _⟩
+      rcases hvis with hc | ⟨_, r', _, _, hl', hk', hs', hat', _, hsy⟩
       · cases hc
-      · have htbl : stepTbl outc sp q budget t0 (i + 1) = fireAll outc s'.tbl := by
-          show fireAll outc (handleStep _ q sp).st.tbl = _
-          rw [hst]
+      · have htbl : stepTbl outc sp q budget keep t0 (i + 1) = fireAll outc s'.tbl := by
+          show fireAll outc (kept (handleStep _ q sp).st (keep i)) = _
+          rw [hst, kept_synced hsy]
         constructor
         · rw [htbl]
           apply parentOk_fireAll
@@ -441,31 +456,31 @@ theorem C07_step_done_within (outc : Pos → Backend.Immediate) (sp : StepSpec) 
           rw [htbl, lookup_fireAll, hl']
           show some (fireRec _ r') = _
           rw [fireRec_pending (Or.inl hk') hs']
-  have hex : ∃ i, ¬ ∃ d s', stepVisit outc sp q budget t0 i = .stop (.suspended d) s' := by
+  have hex : ∃ i, ¬ ∃ d s', stepVisit outc sp q budget keep t0 i = .stop (.suspended d) s' := by
     apply Classical.byContradiction
     intro hne
-    have hall : ∀ i, ∃ d s', stepVisit outc sp q budget t0 i = .stop (.suspended d) s' :=
+    have hall : ∀ i, ∃ d s', stepVisit outc sp q budget keep t0 i = .stop (.suspended d) s' :=
       fun i => Classical.byContradiction (fun h => hne ⟨i, h⟩)
     obtain ⟨hp, hrec⟩ := hinv M (fun i' _ => hall i')
     obtain ⟨d, s', hv⟩ := hall M
-    have h3 := (C07_step_progress sp M (stOk_init (stepTbl outc sp q budget t0 M) (budget M)) hp hrec).2.2 M hM
+    have h3 := (C07_step_progress sp M (stOk_init (stepTbl outc sp q budget keep t0 M) (budget M)) hp hrec).2.2 M hM
       (by omega) d s'
     exact h3 hv
   obtain ⟨j, hj, hmin⟩ := exists_least hex
-  have hprev : ∀ i', i' < j → ∃ d s', stepVisit outc sp q budget t0 i' = .stop (.suspended d) s' :=
+  have hprev : ∀ i', i' < j → ∃ d s', stepVisit outc sp q budget keep t0 i' = .stop (.suspended d) s' :=
     fun i' hi' => Classical.byContradiction (fun h => hmin i' hi' h)
   obtain ⟨hp, hrec⟩ := hinv j hprev
-  have hvis := handleStep_visit (s := initSt (stepTbl outc sp q budget t0 j) (budget j) none (fun _ => .none))
+  have hvis := handleStep_visit (s := initSt (stepTbl outc sp q budget keep t0 j) (budget j) none (fun _ => .none))
     sp j (stOk_init _ _) hp hrec
   have hjM : j ≤ M := by
     apply Classical.byContradiction
     intro hgt
     obtain ⟨hpM, hrecM⟩ := hinv M (fun i' hi' => hprev i' (by omega))
     obtain ⟨d, s', hv⟩ := hprev M (by omega)
-    exact (C07_step_progress sp M (stOk_init (stepTbl outc sp q budget t0 M) (budget M)) hpM hrecM).2.2 M hM
+    exact (C07_step_progress sp M (stOk_init (stepTbl outc sp q budget keep t0 M) (budget M)) hpM hrecM).2.2 M hM
       (by omega) d s' hv
   refine ⟨j, hjM, hprev, ?_⟩
-  cases hv : stepVisit outc sp q budget t0 j with
+  cases hv : stepVisit outc sp q budget keep t0 j with
   | deliver o s' =>
     unfold stepVisit at hv
     rw [hv] at hvis
@@ -485,23 +500,25 @@ theorem C07_step_done_within (outc : Pos → Backend.Immediate) (sp : StepSpec) 
 after finitely many attempts (`Bounded`) and which is replay-stable (`LScoped`: `Scoped` with
 equality — instead of `Sim` — of the continuations that replay may confuse).  Let the
 environment deliver a real outcome to every awaited callback / chained invoke.  Then for every plan
-of crash budgets, the execution from the empty table consists of finitely many invocations that end
-`suspended`, followed by one that returns or raises — or crashes, and then the crash budget of that
-invocation is exhausted (`budget = 0` in its final state).  In particular no round ends `ckptFailed`. -/
+of crash budgets **and every keep plan** (`keep i` = how many of the asynchronous updates still
+queued at the end of invocation `i` reach the backend; the rest is abandoned), the execution from
+the empty table consists of finitely many invocations that end `suspended`, followed by one that
+returns or raises — or crashes, and then the crash budget of that invocation is exhausted
+(`budget = 0` in its final state).  In particular no round ends `ckptFailed`. -/
 theorem C07_terminates (p : Prog) (hb : Bounded p) (hsc : LScoped p [] 0)
-    (outc : Pos → Backend.Immediate) (hout : ∀ q, outc q ≠ .none) (budget : Nat → Nat) :
-    ∃ n, (∀ i, i < n → ∃ d, goodEnd outc p budget i = .suspended d) ∧
-      ((∃ v, goodEnd outc p budget n = .returned v) ∨ (∃ e, goodEnd outc p budget n = .raised e) ∨
-        (goodEnd outc p budget n = .crashed ∧ (goodSt outc p budget n).budget = 0)) :=
-  good_terminates' hout p hb hsc budget
+    (outc : Pos → Backend.Immediate) (hout : ∀ q, outc q ≠ .none) (budget keep : Nat → Nat) :
+    ∃ n, (∀ i, i < n → ∃ d, goodEnd outc p budget keep i = .suspended d) ∧
+      ((∃ v, goodEnd outc p budget keep n = .returned v) ∨ (∃ e, goodEnd outc p budget keep n = .raised e) ∨
+        (goodEnd outc p budget keep n = .crashed ∧ (goodSt outc p budget keep n).budget = 0)) :=
+  good_terminates' hout p hb hsc budget keep
 
 /-- The same under the proviso "no round crashes": a final outcome is reached. -/
 theorem C07_terminates_crashfree (p : Prog) (hb : Bounded p) (hsc : LScoped p [] 0)
-    (outc : Pos → Backend.Immediate) (hout : ∀ q, outc q ≠ .none) (budget : Nat → Nat)
-    (hnc : ∀ i, goodEnd outc p budget i ≠ .crashed) :
-    ∃ n, (∀ i, i < n → ∃ d, goodEnd outc p budget i = .suspended d) ∧
-      ((∃ v, goodEnd outc p budget n = .returned v) ∨ (∃ e, goodEnd outc p budget n = .raised e)) := by
-  obtain ⟨n, h1, h2⟩ := C07_terminates p hb hsc outc hout budget
+    (outc : Pos → Backend.Immediate) (hout : ∀ q, outc q ≠ .none) (budget keep : Nat → Nat)
+    (hnc : ∀ i, goodEnd outc p budget keep i ≠ .crashed) :
+    ∃ n, (∀ i, i < n → ∃ d, goodEnd outc p budget keep i = .suspended d) ∧
+      ((∃ v, goodEnd outc p budget keep n = .returned v) ∨ (∃ e, goodEnd outc p budget keep n = .raised e)) := by
+  obtain ⟨n, h1, h2⟩ := C07_terminates p hb hsc outc hout budget keep
   refine ⟨n, h1, ?_⟩
   rcases h2 with h | h | h
   · exact Or.inl h
@@ -509,23 +526,26 @@ theorem C07_terminates_crashfree (p : Prog) (hb : Bounded p) (hsc : LScoped p []
   · exact absurd h.1 (hnc n)
 
 /-- The core of the proof, for a fragment placed anywhere: no infinite sequence of invocations, each
-on the table the good environment makes of the previous one's, consists of suspensions only. -/
+on the table the good environment makes of what the backend kept of the previous one, consists of
+suspensions only. -/
 theorem C07_no_infinite_suspension (outc : Pos → Backend.Immediate) (hout : ∀ q, outc q ≠ .none) (p : Prog)
-    (ctx : Pos) (n : Nat) (seq : Nat → St) (hb : Bounded p) (hsc : LScoped p ctx n)
-    (g : GoodSeq outc p ctx n seq) : False :=
-  live hout p ctx n seq hb hsc g
+    (ctx : Pos) (n : Nat) (keep : Nat → Nat) (seq : Nat → St) (hb : Bounded p) (hsc : LScoped p ctx n)
+    (g : GoodSeq outc keep p ctx n seq) : False :=
+  live hout p ctx n keep seq hb hsc g
 
-/-- Every table of a good execution is compatible with the program, and no update is ever rejected. -/
-theorem C07_good_compat (p : Prog) (hsc : LScoped p [] 0) (outc : Pos → Backend.Immediate) (budget : Nat → Nat)
-    (i : Nat) : Compat p [] 0 (goodTbl outc p budget i) ∧ goodEnd outc p budget i ≠ .ckptFailed :=
-  ⟨good_compat outc hsc.scoped budget i, good_no_fault outc hsc.scoped budget i⟩
+/-- Every table of a good execution — under every keep plan — is compatible with the program, and no
+update is ever rejected. -/
+theorem C07_good_compat (p : Prog) (hsc : LScoped p [] 0) (outc : Pos → Backend.Immediate)
+    (budget keep : Nat → Nat) (i : Nat) :
+    Compat p [] 0 (goodTbl outc p budget keep i) ∧ goodEnd outc p budget keep i ≠ .ckptFailed :=
+  ⟨good_compat outc hsc.scoped budget keep i, good_no_fault outc hsc.scoped budget keep i⟩
 
 /-! ### The statement with `Scoped` is false -/
 
 /-- The liveness statement for `Scoped` programs (replay-stability up to `Sim` only). -/
 def C07_terminates_full : Prop :=
   ∀ (p : Prog), Bounded p → Scoped p [] 0 → ∀ (outc : Pos → Backend.Immediate), (∀ q, outc q ≠ .none) →
-    ∀ (budget : Nat → Nat), ∃ n, ∀ d, goodEnd outc p budget n ≠ .suspended d
+    ∀ (budget keep : Nat → Nat), ∃ n, ∀ d, goodEnd outc p budget keep n ≠ .suspended d
 
 namespace Cx
 
@@ -615,27 +635,32 @@ theorem cx_scoped : Scoped cx [] 0 := by
     exact sim_step_wait
 
 /-- From round 1 on the table is a fixed point of the good round, which ends `suspended`: the wait
-of the replay path sits on the READY step record of the first-execution path. -/
-theorem cx_fixpoint :
-    goodEnd cxOut cx (fun _ => 100) 0 = .suspended (some 1) ∧
-    goodRound cxOut cx 100 (goodTbl cxOut cx (fun _ => 100) 1) =
-      (.suspended (some 5), goodTbl cxOut cx (fun _ => 100) 1) := by decide
+of the replay path sits on the READY step record of the first-execution path.  Both when every
+asynchronous update in flight is abandoned (`keep = 0`) and when all get through (`keep = 100`). -/
+theorem cx_fixpoint (k : Nat) (hk : k = 0 ∨ k = 100) :
+    goodEnd cxOut cx (fun _ => 100) (fun _ => k) 0 = .suspended (some 1) ∧
+    goodRound cxOut cx 100 k (goodTbl cxOut cx (fun _ => 100) (fun _ => k) 1) =
+      (.suspended (some 5), goodTbl cxOut cx (fun _ => 100) (fun _ => k) 1) := by
+  rcases hk with rfl | rfl <;> decide
 
-theorem cx_tbl (i : Nat) : goodTbl cxOut cx (fun _ => 100) (i + 1) = goodTbl cxOut cx (fun _ => 100) 1 := by
+theorem cx_tbl (k : Nat) (hk : k = 0 ∨ k = 100) (i : Nat) :
+    goodTbl cxOut cx (fun _ => 100) (fun _ => k) (i + 1) = goodTbl cxOut cx (fun _ => 100) (fun _ => k) 1 := by
   induction i with
   | zero => rfl
   | succ i ih =>
-    show (goodRound cxOut cx 100 (goodTbl cxOut cx (fun _ => 100) (i + 1))).2 = _
-    rw [ih, cx_fixpoint.2]
+    show (goodRound cxOut cx 100 k (goodTbl cxOut cx (fun _ => 100) (fun _ => k) (i + 1))).2 = _
+    rw [ih, (cx_fixpoint k hk).2]
 
-/-- **Livelock.**  Every round of the good execution of `cx` ends `suspended`. -/
-theorem cx_suspended_forever (i : Nat) : ∃ d, goodEnd cxOut cx (fun _ => 100) i = .suspended d := by
+/-- **Livelock.**  Every round of the good execution of `cx` ends `suspended` (keep plans `0` and
+`100`). -/
+theorem cx_suspended_forever (k : Nat) (hk : k = 0 ∨ k = 100) (i : Nat) :
+    ∃ d, goodEnd cxOut cx (fun _ => 100) (fun _ => k) i = .suspended d := by
   cases i with
-  | zero => exact ⟨_, cx_fixpoint.1⟩
+  | zero => exact ⟨_, (cx_fixpoint k hk).1⟩
   | succ i =>
     refine ⟨some 5, ?_⟩
-    show (goodRound cxOut cx 100 (goodTbl cxOut cx (fun _ => 100) (i + 1))).1 = _
-    rw [cx_tbl i, cx_fixpoint.2]
+    show (goodRound cxOut cx 100 k (goodTbl cxOut cx (fun _ => 100) (fun _ => k) (i + 1))).1 = _
+    rw [cx_tbl k hk i, (cx_fixpoint k hk).2]
 
 end Cx
 
@@ -646,7 +671,8 @@ where the first-execution path left a retrying step. -/
 theorem C07_terminates_full_false : ¬ C07_terminates_full := by
   intro h
   obtain ⟨n, hn⟩ := h Cx.cx Cx.cx_bounded Cx.cx_scoped Cx.cxOut (fun _ h => by cases h) (fun _ => 100)
-  obtain ⟨d, hd⟩ := Cx.cx_suspended_forever n
+    (fun _ => 0)
+  obtain ⟨d, hd⟩ := Cx.cx_suspended_forever 0 (Or.inl rfl) n
   exact hn d hd
 
 /-! ### Non-vacuity -/
@@ -687,18 +713,23 @@ theorem demo_scoped : LScoped demo [] 0 := by
   · cases o <;> exact .ret
   · cases o <;> first | exact .ret | exact .raise
 
-/-- The good execution of `demo`: retry timer, wait timer, callback, then the result. -/
+/-- The good execution of `demo`: retry timer, wait timer, callback, then the result — the same four
+rounds whether the backend abandons every asynchronous update in flight (`keep = 0`) or receives
+all of them (`keep = 100`): each suspension here follows a synchronous call. -/
 theorem demo_rounds :
-    (List.range 4).map (goodEnd demoOut demo (fun _ => 100)) =
+    (List.range 4).map (goodEnd demoOut demo (fun _ => 100) (fun _ => 0)) =
+      [.suspended (some 3), .suspended (some 5), .suspended none, .returned "cbv"] ∧
+    (List.range 4).map (goodEnd demoOut demo (fun _ => 100) (fun _ => 100)) =
       [.suspended (some 3), .suspended (some 5), .suspended none, .returned "cbv"] := by decide
 
-/-- `C07_terminates` applies to `demo`; the round it promises is round 3. -/
-theorem demo_terminates :
-    ∃ n, (∀ i, i < n → ∃ d, goodEnd demoOut demo (fun _ => 100) i = .suspended d) ∧
-      ((∃ v, goodEnd demoOut demo (fun _ => 100) n = .returned v) ∨
-        (∃ e, goodEnd demoOut demo (fun _ => 100) n = .raised e) ∨
-        (goodEnd demoOut demo (fun _ => 100) n = .crashed ∧ (goodSt demoOut demo (fun _ => 100) n).budget = 0)) :=
-  C07_terminates demo demo_bounded demo_scoped demoOut (fun _ h => by cases h) (fun _ => 100)
+/-- `C07_terminates` applies to `demo`, for every keep plan; the round it promises is round 3. -/
+theorem demo_terminates (keep : Nat → Nat) :
+    ∃ n, (∀ i, i < n → ∃ d, goodEnd demoOut demo (fun _ => 100) keep i = .suspended d) ∧
+      ((∃ v, goodEnd demoOut demo (fun _ => 100) keep n = .returned v) ∨
+        (∃ e, goodEnd demoOut demo (fun _ => 100) keep n = .raised e) ∨
+        (goodEnd demoOut demo (fun _ => 100) keep n = .crashed ∧
+          (goodSt demoOut demo (fun _ => 100) keep n).budget = 0)) :=
+  C07_terminates demo demo_bounded demo_scoped demoOut (fun _ h => by cases h) (fun _ => 100) keep
 
 /-- A child context whose result is oversized (the context is re-traversed on replay), followed by a
 wait. -/
@@ -714,10 +745,41 @@ theorem demoLarge_scoped : LScoped demoLarge [] 0 := by
   cases o <;> exact .ret
 
 theorem demoLarge_rounds :
-    (List.range 3).map (goodEnd demoOut demoLarge (fun _ => 100)) =
+    ((List.range 3).map (goodEnd demoOut demoLarge (fun _ => 100) (fun _ => 0)) =
       [.suspended (some 1), .suspended (some 2), .returned "big"] ∧
-    lookup (goodTbl demoOut demoLarge (fun _ => 100) 2) [1] =
-      some { kind := .context, status := .succeeded, result := some "sum", replayChildren := true } := by decide
+    lookup (goodTbl demoOut demoLarge (fun _ => 100) (fun _ => 0) 2) [1] =
+      some { kind := .context, status := .succeeded, result := some "sum", replayChildren := true }) ∧
+    ((List.range 3).map (goodEnd demoOut demoLarge (fun _ => 100) (fun _ => 100)) =
+      [.suspended (some 1), .suspended (some 2), .returned "big"] ∧
+    lookup (goodTbl demoOut demoLarge (fun _ => 100) (fun _ => 100) 2) [1] =
+      some { kind := .context, status := .succeeded, result := some "sum", replayChildren := true }) := by decide
+
+/-- A workflow in which an asynchronous START is really lost: inside a fresh child context,
+`Callback.result()` on a callback of the enclosing context suspends without any synchronous call, so
+the START of the child context is still in flight.  With `keep = 0` it is abandoned (the table after
+round 0 has no record at `[2]`) and sent again in round 1; with `keep = 100` it gets through.  The
+rounds end the same way. -/
+def demoLost : Prog :=
+  .cbNew fun h => .child {} (.cbRes h kRes) kOut
+
+theorem demoLost_bounded : Bounded demoLost := by
+  refine .cbNew (fun h => .child (.cbRes (fun o => ?_)) (fun o => ?_))
+  · cases o <;> exact .ret
+  · cases o <;> first | exact .ret | exact .raise
+
+theorem demoLost_scoped : LScoped demoLost [] 0 := by
+  refine .cbNew (.child (.cbRes (past_into_child (past_self [] 0)) (fun o => ?_)) (fun o => ?_) (fun _ _ => rfl))
+  · cases o <;> exact .ret
+  · cases o <;> first | exact .ret | exact .raise
+
+theorem demoLost_rounds :
+    ((List.range 2).map (goodEnd demoOut demoLost (fun _ => 100) (fun _ => 0)) =
+      [.suspended none, .returned "cbv"] ∧
+     lookup (goodTbl demoOut demoLost (fun _ => 100) (fun _ => 0) 1) [2] = none) ∧
+    ((List.range 2).map (goodEnd demoOut demoLost (fun _ => 100) (fun _ => 100)) =
+      [.suspended none, .returned "cbv"] ∧
+     lookup (goodTbl demoOut demoLost (fun _ => 100) (fun _ => 100) 1) [2] =
+      some { kind := .context, status := .started }) := by decide
 
 end Demo
 
